@@ -119,7 +119,7 @@ def _close(a, b, tol=MODEL_TOL):
 
 
 def _exact(a, b):
-    """same number, bit for bit in every real part (1 == 1.0 is accepted, 0.0 vs -0.0 is not)"""
+    """the same number in every real part, exactly (1 == 1.0 and 0.0 == -0.0 are accepted)"""
     if isinstance(a, int) and isinstance(b, int):
         return a == b               # integers beyond 2**53 must not be compared through floats
     if isinstance(a, int) != isinstance(b, int) and not isinstance(a, complex) and not isinstance(b, complex):
@@ -132,7 +132,7 @@ def _exact(a, b):
     for p, q in ((ca.real, cb.real), (ca.imag, cb.imag)):
         if math.isnan(p) and math.isnan(q):
             continue
-        if p != q or math.copysign(1.0, p) != math.copysign(1.0, q):
+        if p != q:               # 0.0 and -0.0 are the same number (a loader may build z as re + 1j*im)
             return False
     return True
 
@@ -284,7 +284,7 @@ def model_gen_component(ctx, a, res, rec):
     except ModelRaises:
         return _unjudged(rec, res)
     if isinstance(res, BaseException):
-        if type(res).__name__ == "ValueError":      # constructors reject negative R/G/w by contract
+        if isinstance(res, ValueError):             # constructors reject negative R/G/w by contract
             return None
         return _viol("load-failed", f"well-formed component entry raised {type(res).__name__}")
     return _check_component(res, exp)
@@ -306,7 +306,7 @@ def model_undictify_circuit(ctx, a, res, rec):
     except (ModelRaises, KeyError, TypeError):
         return _unjudged(rec, res)
     if isinstance(res, BaseException):
-        if type(res).__name__ in ("ValueError", "MultipleGroundNodes"):
+        if isinstance(res, ValueError) or type(res).__name__ == "MultipleGroundNodes":
             return None
         return _viol("load-failed", f"well-formed circuit description raised {type(res).__name__}")
     if not hasattr(res, "components"):
